@@ -20,8 +20,12 @@ import A2Verif.Model.VolSpec
 
 The model is a transcription of a2kit's ProDOS module, tied byte for byte to the real code after every operation of
 every generated history (`Drv/FsProdos.lean`, `harness/src/fam/fs_prodos.rs`).  This file collects the theorems about
-it.  **The full refinement chain (`Inv`, `step_refines` for every operation, `history_refines`, as for the Pascal model)
-is not proved for ProDOS.**  What is proved, for all inputs:
+it (details: `design/FsProdos.md`).  **Proved for all inputs, source as repaired, volumes without sub-directories**: the
+on-disk invariant `Inv` and the states `SInv` of the disk object between two calls; the refinement of `put` (seedling, sapling,
+tree, sparse), `delete`, `rename`, `lock`, `unlock`, `retype` on the volume directory — every outcome, `Inv` preserved
+(`prodos_put_refines`, `prodos_delete_refines`, `prodos_rename_refines`, `prodos_lock_refines_inv`, …); `prodos_step_refines`,
+`prodos_history_refines`; and the C01–C05 / C19 corollaries for the concrete model at the end of the file.  **Not proved**:
+`mkdir`, paths into sub-directories, directory growth, `format` for every size.  Older results, kept:
 
 * **refinement of `lock`, `unlock` and `retype` for files of the volume directory** (`prodos_lock_refines`,
   `prodos_unlock_refines`, `prodos_retype_refines`): if the image reads (total reader `Read.ProdosT.read`) as a well-formed volume `v` and
@@ -471,29 +475,35 @@ theorem prodos_unfound_is_unlisted {r : Raw} (hinv : Inv r) (v : Vol) (fsL : Lis
     (hv : isNameValid nn = true) (hnone : (dirSlots r 2 ch).find? (isHit allTypes nn) = none) : upper nn ∉ v.paths :=
   path_not_listed hinv v fsL ch hread htree nn hv hnone
 
-/-- **`put(fimg)` refines the abstract `put`** (C01–C05; file of the volume directory, file image of at most 256 chunk
-positions: seedling and sapling files, sparse ones included): whatever the outcome — refused before anything is read, refused
+/-- **`put(fimg)` refines the abstract `put`** (C01–C05; file of the volume directory: seedling, sapling and tree files,
+sparse ones included): whatever the outcome — refused before anything is read, refused
 by `prepare_to_write`, refused for lack of space, carried out — after `get_img()` the state is a state between two calls
 again and the readings before and after are related by the step the abstract specification allows for `put` with the reported
 result; a refused `put` changes nothing -/
-theorem prodos_put_refines {d : Disk} (hs : SInv d) (f : FImg) (time nm : Bytes) (pa : PutArgs f time) (h256 : f.end_ ≤ 256)
+theorem prodos_put_refines {d : Disk} (hs : SInv d) (f : FImg) (time nm : Bytes) (pa : PutArgs f time)
     (hnodes : normalizePath (volName (hdrOf d.raw)) f.fullPath = .ok [volName (hdrOf d.raw), nm]) (hnm : nm ≠ []) :
     Refines d (put f time repaired d)
       (.put (upper nm) f.chunks f.eof (f.fsType.getD 0 0) (f.aux.getD 0 0 + 256 * f.aux.getD 1 0)) :=
-  put_refines' hs f time nm pa h256 hnodes hnm
+  put_refines' hs f time nm pa hnodes hnm
 
-/-- **`blocks_needed` counts what `write_file` takes** (C04; at most 256 chunk positions): the chunks present, plus one
-index block exactly when the image has more than one chunk position -/
+/-- **`blocks_needed` counts what `write_file` takes** (C04): the chunks present, one index block when the image has more
+than one chunk position, and — when it has more than 256 — the master index block and one index block for every further group
+of 256 chunk positions **that holds a chunk** (`grp`: the group numbers of the chunks from position 256 on) -/
+theorem prodos_blocks_needed_counts (f : FImg) (hk : (f.chunks.map (·.1)).Pairwise (· < ·)) :
+    blocksNeeded f = dataCount f f.end_ + (if f.end_ > 1 then 1 else 0) +
+      (if f.end_ > 256 then 1 + distinctCount (grp f f.end_) else 0) := blocksNeeded_eq f hk
+
+/-- the same for at most 256 chunk positions -/
 theorem prodos_blocks_needed_small (f : FImg) (hk : (f.chunks.map (·.1)).Pairwise (· < ·)) (h : f.end_ ≤ 256) :
     blocksNeeded f = dataCount f f.end_ + (if f.end_ > 1 then 1 else 0) := blocksNeeded_small f hk h
 
-/-- **C04, acceptance** (`fits-is-accepted`; volume directory, at most 256 chunk positions): a valid name that is not
-listed, a free slot in the volume directory, and `blocks_needed(fimg)` — data blocks plus the index block — not above the
-number of free blocks: `put` returns `Ok`, the step is the abstract `put`, and the free list shrinks by **exactly**
+/-- **C04, acceptance** (`fits-is-accepted`; volume directory): a valid name that is not listed, a free slot in the
+volume directory, and `blocks_needed(fimg)` — data blocks, index blocks of the groups that hold data, master index block — not
+above the number of free blocks: `put` returns `Ok`, the step is the abstract `put`, and the free list shrinks by **exactly**
 `blocks_needed(fimg)` (so `write_file` takes neither more nor fewer blocks than were asked for) -/
 theorem prodos_fits_is_accepted {d : Disk} (hs : SInv d) (v : Vol) (fsL : List Read.ProdosT.LRec) (ch : List Nat)
     (hr : Read.ProdosT.read d.raw = .ok v) (ht : Read.ProdosT.readTree d.raw (hdrTotal d.raw) = .ok (fsL, ch))
-    (f : FImg) (time nm : Bytes) (pk : PutOk f time) (h256 : f.end_ ≤ 256)
+    (f : FImg) (time nm : Bytes) (pk : PutOk f time)
     (hnodes : normalizePath (volName (hdrOf d.raw)) f.fullPath = .ok [volName (hdrOf d.raw), nm]) (hnm : nm ≠ [])
     (hv : isNameValid nm = true)
     (hnone : (dirSlots d.raw 2 ch).find? (isHit allTypes nm) = none)
@@ -503,7 +513,7 @@ theorem prodos_fits_is_accepted {d : Disk} (hs : SInv d) (v : Vol) (fsL : List R
       Read.ProdosT.read d4.raw = .ok v4 ∧
       stepOk prodosParams v (.put (upper nm) f.chunks f.eof (f.fsType.getD 0 0) (f.aux.getD 0 0 + 256 * f.aux.getD 1 0)) true v4 = true ∧
       v4.label = v.label ∧ v4.freeUnits.length + blocksNeeded f = v.freeUnits.length :=
-  put_ok hs v fsL ch hr ht f time nm pk h256 hnodes hnm hv hnone x hslot hfit
+  put_ok hs v fsL ch hr ht f time nm pk hnodes hnm hv hnone x hslot hfit
 
 /-- **Refinement, one step** (volume-directory operations `put`, `delete`, `rename`, `lock`, `unlock`, `retype`) -/
 theorem prodos_step_refines {d : Disk} (hs : SInv d) (op : VOp) (hroot : op.Root (volName (hdrOf d.raw))) :
